@@ -491,14 +491,21 @@ def scope_sig(c, exp, got):
     return "scope:" + "+".join(ks)
 
 
-def replay_scope(ctx, tree, got3, got4):
-    """got3: every history with <= 3 opened constructs; got4 (thorough): those with 4"""
+def replay_scope(ctx, tree, path3, path4):
+    """path3: every history with <= 3 opened constructs; path4 (thorough): 4 opened constructs, of which a
+    seed-selected tenth is replayed.  The big file is streamed and selected by a hash of the line (independent
+    of the order in which TLC's workers wrote it): a large Python heap makes every fork() of the replay slow."""
+    import zlib
     q = ctx.quick
     key = lambda c: json.dumps(c, sort_keys=True)
-    hs = sorted(got3, key=key)
-    if got4:
-        g4 = [h for h in sorted(got4, key=key) if sum(1 for ev in h["h"] if ev["e"] == "open") == 4]
-        hs += vt.subsample(g4, ctx.seed, 10)
+    hs = sorted(vt.read_ndjson(path3), key=key)
+    if path4:
+        g4 = []
+        for line in open(path4):
+            if line.count('\\"e\\":\\"open\\"') + line.count('"e":"open"') == 4 and zlib.crc32(line.strip().encode()) % 10 == ctx.seed % 10:
+                v = json.loads(line)
+                g4.append(json.loads(v) if isinstance(v, str) else v)
+        hs += sorted(g4, key=key)
     if len(hs) < 500:
         raise Infra("Scope generator wrote only %d histories" % len(hs))
     for h in hs:            # each history also gets the second function g
@@ -666,7 +673,7 @@ def run_models(ctx):
             if len(progs[name]) < 50:
                 raise Infra("CFlow profile %s wrote only %d programs" % (name, len(progs[name])))
         if kind == "scope":
-            scope[name] = vt.read_ndjson(out)
+            scope[name] = out
     ctx.phase("TLC models and controls")
     return progs, scope
 
